@@ -6,7 +6,7 @@ import sympy as sp
 
 from . import facts as FX
 from . import harness as H
-from .alg import Cond, Enum, IntV, Ite, Opaque, Pt, Sc, Seg, Struct, Tup, Unanalysable, Vec, eq, isym, mk_sum, pt_eq, sfun, ssym, val_eq, vec_eq, show
+from .alg import Cond, Enum, IntV, Ite, Opaque, Pt, Sc, Seg, Struct, Tup, Unanalysable, Vec, eq, isym, mk_sum, pt_eq, sfun, ssym, val_eq, vec_eq, show, zip_vecs
 from .interp import UNIT, Tr, Trace
 
 P_CREATE = H.P_IPP + "create"
@@ -252,6 +252,78 @@ def check_create(ck, F):
     okl = isinstance(lv, Opaque) and lv.what == "rounds-list" and isinstance(rv, Opaque) and rv.what == "rounds-list"
     ck.require(okl, "R10.5", "result:round-lists", "L_vec / R_vec must be the per-round pushes in round order", where)
     return A
+
+
+def folding_step(ck, F, rule="R10.7"):
+    """Inductive step of the folding theorem, checked on the *extracted* rounds:
+        <a',G'> + <b',H'> + <a',b'> Q  ==  u^2 L + ( <a, gf o G> + <b, hf o H> + <a,b> Q ) + u^-2 R
+    as an identity of formal sums over the independent bases G_j, G_{h+j}, H_j, H_{h+j}, Q (for symbolic half-length h).
+    With it, by induction over the k rounds, the final (a, b) open the original statement against the fully folded
+    generators; the verifier's s-vector form of that folding is R10.3."""
+    A = analyse_create(F)
+    info, h = A["info"], A["h"]
+    where = FX.short(F.fn(P_CREATE)["sp"])
+    pre = info.get("pre_while")
+    if pre is None or not info["rounds"]:
+        ck.fail(rule, "structure", "no rounds extracted", where)
+        return
+    retv = A["ret"]
+    lists = {fld: retv.fields.get(fld) for fld in ("L_vec", "R_vec")} if isinstance(retv, Struct) else {}
+    k = isym("_k")
+    Q = ssym("Q")
+
+    def stmt(hh, a_f, b_f, G_f, H_f, n_terms):
+        """<a,G> + <b,H> + <a,b>Q for vectors given as Vec values of length n_terms*hh segments"""
+        terms = []
+        ab = sp.Integer(0)
+        za = zip_vecs(a_f, G_f)
+        for sg in za.nonempty_segs():
+            terms += [(sg.n, (lambda j, sg=sg, ti=ti: sg.f(j).items[1].terms[ti][1](0)), (lambda j, sg=sg, ti=ti: sg.f(j).items[0].e * sg.f(j).items[1].terms[ti][2](0))) for ti in range(len(sg.f(isym("_p")).items[1].terms))]
+        zb = zip_vecs(b_f, H_f)
+        for sg in zb.nonempty_segs():
+            terms += [(sg.n, (lambda j, sg=sg, ti=ti: sg.f(j).items[1].terms[ti][1](0)), (lambda j, sg=sg, ti=ti: sg.f(j).items[0].e * sg.f(j).items[1].terms[ti][2](0))) for ti in range(len(sg.f(isym("_p")).items[1].terms))]
+        zab = zip_vecs(a_f, b_f)
+        for sg in zab.nonempty_segs():
+            kk = isym("_kk")
+            ab += mk_sum(sg.n, sg.f(kk).items[0].e * sg.f(kk).items[1].e, kk)
+        terms.append((sp.Integer(1), lambda j: Q, lambda j, ab=ab: ab))
+        return Pt(terms)
+
+    def scaled_bases(name, fac, hh):
+        """2*hh bases split at hh (so that formal-sum keys line up with the halves the round works on)"""
+        fam, ff = sfun(name), sfun(fac) if fac else None
+        mk = lambda off: Seg(hh, lambda j, off=off: Pt([(sp.Integer(1), (lambda _: fam(off + j)), (lambda _: ff(off + j) if ff else sp.Integer(1)))]))
+        return Vec([mk(sp.Integer(0)), mk(hh)])
+
+    def halves(name, hh):
+        f_ = sfun(name)
+        return Vec([Seg(hh, lambda j: Sc(f_(j))), Seg(hh, lambda j: Sc(f_(hh + j)))])
+
+    cases = []
+    # first round: statement with factors on vectors of length 2h
+    before1 = stmt(h, halves("av", h), halves("bv", h), scaled_bases("Gv", "gf", h), scaled_bases("Hv", "hf", h), 2)
+    f = {kx: pick_then(pre.get(kx)) for kx in ("a", "b", "G", "H")}
+    L1 = pick_then(lists["L_vec"].info["first"]) if isinstance(lists.get("L_vec"), Opaque) else None
+    R1 = pick_then(lists["R_vec"].info["first"]) if isinstance(lists.get("R_vec"), Opaque) else None
+    cases.append(("first", ssym("ch[u].d0"), before1, f, L1, R1))
+    g = info["rounds"][0]
+    h2 = g["h"]
+    before2 = stmt(h2, halves("ra", h2), halves("rb", h2), scaled_bases("rG", None, h2), scaled_bases("rH", None, h2), 2)
+    cases.append(("generic", ssym("ch[u]#1.d0"), before2, g["post"], g["post_lists"].get("L_vec") if "post_lists" in g else None, g["post_lists"].get("R_vec") if "post_lists" in g else None))
+    for name, u, before, post, Lv, Rv in cases:
+        try:
+            ok_shapes = all(isinstance(post.get(kx), Vec) for kx in ("a", "b", "G", "H")) and isinstance(Lv, Vec) and isinstance(Rv, Vec) and eq(Lv.length(), 1) and eq(Rv.length(), 1)
+            if not ok_shapes:
+                ck.fail(rule, f"folding-step:{name}", "round outputs not available as vectors", where)
+                continue
+            after = stmt(None, post["a"], post["b"], post["G"], post["H"], 1)
+            L, R = Lv.index(sp.Integer(0)), Rv.index(sp.Integer(0))
+            rhs = L.scale(u**2).add(before).add(R.scale(u**-2))
+            diff = after.add(rhs.neg())
+            res = {kk_: v for kk_, v in diff.canon().items() if not eq(v, 0)}
+            ck.require(not res, rule, f"folding-step:{name}", f"one {name} round does not preserve the opening statement: residual {[(kk_[0][:50], str(v)[:90]) for kk_, v in list(res.items())[:3]]}", where, detail="<a',G'>+<b',H'>+<a',b'>Q == u^2 L + P + u^-2 R as formal sums (symbolic half-length)")
+        except Unanalysable as ue:
+            ck.fail(rule, f"folding-step:{name}", f"unanalysable: {ue.msg}", where, kind="unanalysable")
 
 
 def first_round_trace(A):
